@@ -410,6 +410,24 @@ impl<K: Hash + Eq, KH: KeyHasher<K>> TinyLFU<K, KH> {
     }
 }
 
+#[cfg(feature = "verif-hooks")]
+impl<K, KH> TinyLFU<K, KH> {
+    /// Verification hook (feature `verif-hooks`): (reset counter `w`, sample size).
+    #[doc(hidden)]
+    pub fn verif_w(&self) -> (usize, usize) {
+        (self.w, self.samples)
+    }
+
+    /// Verification hook (feature `verif-hooks`): copies of the count-min rows and of the
+    /// doorkeeper words.
+    #[doc(hidden)]
+    #[allow(clippy::type_complexity)]
+    pub fn verif_state(&self) -> (alloc::vec::Vec<alloc::vec::Vec<u8>>, alloc::vec::Vec<u64>) {
+        (self.ctr.verif_rows(), self.doorkeeper.verif_words())
+    }
+}
+
+
 #[cfg(test)]
 pub(crate) mod test {
     use core::hash::Hasher;
